@@ -100,7 +100,7 @@ def generate(rng, tier) -> dict:
     top = (1 << nbits) - 1 if nbits < 32 else 100
     sc = {"kind": "clean", "files": spec, "start": start, "nsamps": nsamps, "method": rng.choice(["mad", "iqrm"]),
           "threshold": rng.choice([3.0, 2.0, 1.5]), "ranges": gen_ranges(rng, nchans), "fn": rng.choice([None, None, "every3", "first", "last", "none"]),
-          "mask_value": rng.choice([None, 0, top, rng.randint(0, top)]),
+          "mask_value": rng.choice([None, 0, top, rng.randint(0, top)] + ([-1.5, 2.75, -100.0] if nbits == 32 else [])),
           "ops": [{"gulp": max(1, rng.choice([1, 2, 3, rng.randint(1, ns), ns, ns + 2, max(1, ns // 3)]))} for _ in range(2)], "faults": []}
     if rng.random() < 0.2:
         sc["faults"].append({"kind": rng.choice(["R1", "R2", "W3"]), "op": rng.randrange(2), "call": rng.choice([0, 1, 2, 3, 5]), "arg": rng.randint(0, 20)})
